@@ -8,10 +8,11 @@
    binding by position, the stream discipline, and that the loader reaches no unchecked access;
    and T2 itself for the layouts of Proofs_Layout.file_of (C02_any_layout): any number of leading zero bytes, the parameter
    section at any block, anything in between, records in any order and under any group ids, prologue (1,80) or zeroed, anything
-   after the end marker, any data-start word.  Not covered by file_of: a chain ended by a zero offset instead of a zero name
-   length, strings padded with NUL bytes, a single dimension 1 written explicitly, names in lower case (decided by the check). *)
+   after the end of the chain, any data-start word, and both ways the chain may end (a zero name length after the last record,
+   or a zero next-record offset in the last record).  Not covered by file_of: strings padded with NUL bytes, a single dimension
+   1 written explicitly, names in lower case (decided by the check). *)
 From Coq Require Import List.
-From EZ Require Import Base Bytes Types Api Enc Dec Float32 Run Proofs_Bytes Proofs_Codec Proofs_Section Proofs_Record Proofs_Chain Proofs_ChainW Proofs_HeaderCodec Proofs_Robust
+From EZ Require Import Base Bytes Types Api Enc Dec Float32 Run Proofs_Bytes Proofs_Codec Proofs_Section Proofs_Record Proofs_Chain Proofs_ChainZ Proofs_ChainW Proofs_HeaderCodec Proofs_Robust
   Proofs_RoundTrip Proofs_Decide Proofs_Layout Proofs_LayoutCert Run_Decide Properties_C01.
 Local Open Scope N_scope.
 
@@ -100,9 +101,9 @@ Qed.
 Print Assumptions C02_nonvacuous.
 
 (* THE WHOLE FILE, ANY LAYOUT: the loader returns the header fields, the tree the records build in file order, and the frames *)
-Theorem C02_any_layout : forall f_key f_tosize f_div z p h d gap b0 b1 blocks proc its tail fs gs pn an,
+Theorem C02_any_layout : forall f_key f_tosize f_div z p h d gap b0 b1 blocks proc ez its tail fs gs pn an,
   wf_hdr h -> wf_header h -> u16 d -> 2 <= p < 256 -> nlen gap = 512 * (p - 2) ->
-  4 + N.of_nat (items_len its) + 1 + nlen tail = 512 * blocks -> blocks < 256 -> proc < 256 ->
+  4 + nlen (chain_of ez its) + nlen tail = 512 * blocks -> blocks < 256 -> proc < 256 ->
   ((b0 = 1 /\ b1 = 80) \/ (b0 = 0 /\ b1 = 0)) ->
   Forall wf_item its -> apply_items its [] = Ok gs ->
   (Z.of_nat z + 512 * Z.of_N (p - 1) + 512 * Z.of_N blocks < 2147483648)%Z ->
@@ -115,7 +116,7 @@ Theorem C02_any_layout : forall f_key f_tosize f_div z p h d gap b0 b1 blocks pr
    (if 0 <? h_nb_analogs h1 then obind (group_named gs nm_ANALOG) (fun g => obind (param_named g nm_LABELS) values_as_string) = Ok an else an = []) /\
    (fs <> [] -> (h_scale h1 < 0)%Z) /\
    Forall (uniform (N.to_nat (h_points h1)) (N.to_nat (h_byframe h1)) (N.to_nat (h_nb_analogs h1))) fs) ->
-  load f_key f_tosize f_div (file_of z p h d gap b0 b1 blocks proc its tail fs) =
+  load f_key f_tosize f_div (file_of z p h d gap b0 b1 blocks proc ez its tail fs) =
     Ok (mkState (with_pz (with_dstart h d) p (N.of_nat z)) (mkPro 1 80 blocks proc) gs (map (rename_frame pn an) fs)).
 Proof. exact load_layout. Qed.
 Print Assumptions C02_any_layout.
@@ -125,7 +126,7 @@ Print Assumptions C02_any_layout.
    check does this for every file it loads (evidence: theorem_C02_any_layout) *)
 Theorem C02_layout_decided : forall file, cert_ok_x file = true ->
   exists q gs pn an,
-    file = file_of (lp_z q) (lp_p q) (lp_h q) (lp_d q) (lp_gap q) (lp_b0 q) (lp_b1 q) (lp_blocks q) (lp_proc q) (lp_its q) (lp_tail q) (lp_fs q) /\
+    file = file_of (lp_z q) (lp_p q) (lp_h q) (lp_d q) (lp_gap q) (lp_b0 q) (lp_b1 q) (lp_blocks q) (lp_proc q) (lp_ez q) (lp_its q) (lp_tail q) (lp_fs q) /\
     apply_items (lp_its q) [] = Ok gs /\ load_x file = Ok (cert_state q gs pn an).
 Proof.
   intros file H. destruct (layout_cert f_key_impl f_tosize_impl f_div_impl file H) as (q & gs & pn & an & _ & E & G & L).
@@ -138,8 +139,16 @@ Print Assumptions C02_layout_decided.
    data-start word 77 *)
 Definition demo_items : list item := rev (items_v (groups demo_state) 1 3).
 Definition demo_file : list N :=
-  file_of 3 3 (with_pz (hdr demo_state) 2 0) 77 (repeat 7 512) 0 0 2 84 demo_items
+  file_of 3 3 (with_pz (hdr demo_state) 2 0) 77 (repeat 7 512) 0 0 2 84 false demo_items
           (repeat 0 (2 * 512 - 4 - items_len demo_items - 1)) (frames demo_state).
 Example C02_any_layout_nonvacuous : cert_ok_x demo_file = true.
 Proof. vm_compute. reflexivity. Qed.
 Print Assumptions C02_any_layout_nonvacuous.
+
+(* the same content, the chain ended by a zero offset in its last record, garbage (nines) up to the block boundary *)
+Definition demo_file_z : list N :=
+  file_of 0 2 (with_pz (hdr demo_state) 2 0) 3 [] 1 80 2 84 true demo_items
+          (repeat 9 (2 * 512 - 4 - items_len demo_items)) (frames demo_state).
+Example C02_zero_offset_end_nonvacuous : cert_ok_x demo_file_z = true.
+Proof. vm_compute. reflexivity. Qed.
+Print Assumptions C02_zero_offset_end_nonvacuous.
